@@ -15,10 +15,19 @@
      (iv)  the run loop's (K, n) are (#clones, #data points in clones), whatever the outliers;
      (v)   the executable parameter model over Qc (tied to the code by the correspondence) denotes exactly the real-valued
            weight / shape / scale / Beta parameters used in (i)-(ii).
-   NOT proved: that a two-block Gibbs sweep on a continuous space leaves the joint invariant (integration), that the
-   Beta / Gamma densities integrate to one, and that scipy's rvs sample from them.
+   ADDED (session 3): the integration half, relative to an abstract integration operator.  C13_two_block_gibbs_invariant:
+   for ANY two functionals Ia, Ie : (R -> R) -> R that only look at the function on the domain, are linear in constants and
+   commute (Fubini), a sweep "second variable from its full conditional, then first variable from its full conditional"
+   leaves the first marginal of any joint density invariant.  C13_concentration_update_invariant: instantiated with the
+   augmented joint, the code's two draws (Beta(alpha + 1, n), then the NORMALISED two-component mixture with rate
+   b - ln eta) and the posterior of the statement - given in addition that the Beta density has mass one and the mixture
+   non-zero mass under Ie / Ia.  These premises are what Lebesgue integration of non-negative functions on (0,oo) and (0,1)
+   satisfies (Tonelli); they are visible hypotheses, not axioms, and are NOT discharged here (no measure theory installed).
+   NOT proved: that such functionals exist with these properties (i.e. Tonelli and the Beta / Gamma normalisations), and
+   that scipy's rvs sample from the densities.
    The Gamma function is a variable [Gam] with the visible premises Gam (s+1) = s * Gam s and Gam s > 0 for s > 0. *)
-From PV Require Import Model.Concentration Proofs.ConcentrationProofs Proofs.ConcentrationBridge.
+From PV Require Import Model.Concentration Proofs.ConcentrationProofs Proofs.ConcentrationBridge Proofs.ConcentrationGibbs.
+From Coq Require Import Lra.
 Local Open Scope R_scope.
 
 Theorem C13_mixture_is_target : forall Gam, Gamma_like Gam ->
@@ -49,6 +58,58 @@ Theorem C13_exact_gibbs_step_partial : forall Gam, Gamma_like Gam ->
   /\ 0 < mix_const Gam a K n (b - ln eta).
 Proof. exact C13_gibbs_lemma. Qed.
 Print Assumptions C13_exact_gibbs_step_partial.
+
+(* two-block Gibbs on a product space, for any integration operators satisfying Fubini (all premises visible) *)
+Theorem C13_two_block_gibbs_invariant :
+  forall (Pa Pe : R -> Prop) (Ia Ie : (R -> R) -> R),
+  (forall f g, (forall x, Pa x -> f x = g x) -> Ia f = Ia g) -> (forall f g, (forall y, Pe y -> f y = g y) -> Ie f = Ie g) ->
+  (forall c f, Ia (fun x => c * f x) = c * Ia f) -> (forall c f, Ie (fun y => c * f y) = c * Ie f) ->
+  (forall f : R -> R -> R, Ia (fun x => Ie (fun y => f x y)) = Ie (fun y => Ia (fun x => f x y))) ->
+  forall J : R -> R -> R,
+  (forall x, Pa x -> margA Ie J x <> 0) -> (forall y, Pe y -> margE Ia J y <> 0) ->
+  forall x', Ia (fun x => margA Ie J x * sweep Ia Ie J x x') = margA Ie J x'.
+Proof. exact two_block_gibbs_invariant. Qed.
+Print Assumptions C13_two_block_gibbs_invariant.
+
+(* THE STATEMENT, relative to the integration operators: posterior(alpha) x density of the code's update, integrated over
+   alpha, is posterior(alpha') - the update (auxiliary Beta draw, then the normalised Gamma mixture) leaves the conditional
+   posterior of the concentration given K and n invariant *)
+Theorem C13_concentration_update_invariant :
+  forall Gam, Gamma_like Gam ->
+  forall (a b : R) (K n : nat), 0 < a -> 0 < b -> (1 <= K)%nat -> (K <= n)%nat ->
+  forall (Ia Ie : (R -> R) -> R),
+  (forall f g, (forall x, 0 < x -> f x = g x) -> Ia f = Ia g) -> (forall f g, (forall y, 0 < y < 1 -> f y = g y) -> Ie f = Ie g) ->
+  (forall c f, Ia (fun x => c * f x) = c * Ia f) -> (forall c f, Ie (fun y => c * f y) = c * Ie f) ->
+  (forall f : R -> R -> R, Ia (fun x => Ie (fun y => f x y)) = Ie (fun y => Ia (fun x => f x y))) ->
+  (forall alpha, 0 < alpha -> Ie (beta_dens Gam (alpha + 1) (INR n)) = 1) ->
+  (forall eta, 0 < eta < 1 -> Ia (mixture Gam a K n (b - ln eta)) <> 0) ->
+  forall alpha', 0 < alpha' ->
+  Ia (fun alpha => posterior_unnorm Gam a b K n alpha * update_dens Gam a b K n Ia Ie alpha alpha') = posterior_unnorm Gam a b K n alpha'.
+Proof.
+  intros Gam HG a b K n Ha Hb HK HKn Ia Ie H1 H2 H3 H4 H5 H6 H7 alpha' Hal.
+  exact (concentration_update_invariant Gam HG a b K n Ha Hb HK HKn Ia Ie H1 H2 H3 H4 H5 H6 H7 alpha' Hal).
+Qed.
+Print Assumptions C13_concentration_update_invariant.
+
+(* non-vacuity of the generic theorem's premises: point evaluations are such functionals (a one-point space) *)
+Example C13_two_block_premises_satisfiable :
+  let Ia := fun f : R -> R => f 1 in let Ie := fun f : R -> R => f (/ 2) in
+  let J := fun x y : R => x + y in
+  (forall f g, (forall x, 0 < x -> f x = g x) -> Ia f = Ia g) /\ (forall f g, (forall y, 0 < y < 1 -> f y = g y) -> Ie f = Ie g)
+  /\ (forall c f, Ia (fun x => c * f x) = c * Ia f) /\ (forall c f, Ie (fun y => c * f y) = c * Ie f)
+  /\ (forall f : R -> R -> R, Ia (fun x => Ie (fun y => f x y)) = Ie (fun y => Ia (fun x => f x y)))
+  /\ (forall x, 0 < x -> margA Ie J x <> 0) /\ (forall y, 0 < y < 1 -> margE Ia J y <> 0).
+Proof.
+  cbv zeta. unfold margA, margE. split; [|split; [|split; [|split; [|split; [|split]]]]].
+  - intros f g H. cbv beta. apply (H 1). lra.
+  - intros f g H. cbv beta. apply (H (/ 2)). lra.
+  - intros c f. reflexivity.
+  - intros c f. reflexivity.
+  - intros f. reflexivity.
+  - intros x Hx. lra.
+  - intros y Hy. lra.
+Qed.
+Print Assumptions C13_two_block_premises_satisfiable.
 
 Theorem C13_K_n_excludes_outliers : forall F : forest,
   K_n_of_tree F = (fclones F, list_sum (map size (roots F)))
